@@ -703,6 +703,8 @@ func (rs *rowStore) removeOldFiles(stop <-chan interface{}) {
 		case <-stop:
 			rs.t.log.Debug("Stop removing old files")
 			return
+		case d := <-verifRemoveEvery(rs):
+			ticker.Reset(d)
 		case <-ticker.C:
 			files, err := listRegularFiles(rs.opts.dir)
 			if err != nil {
@@ -730,7 +732,9 @@ func (rs *rowStore) removeOldFiles(stop <-chan interface{}) {
 					// Okay to delete now
 					name := filepath.Join(rs.opts.dir, filename)
 					rs.t.log.Debugf("Removing old file %v", name)
+					verifPoint("remove.before")
 					err := os.Remove(name)
+					verifPoint("remove.after")
 					if err != nil {
 						rs.t.log.Errorf("Unable to delete old file store %v, still consuming disk space unnecessarily: %v", name, err)
 					}
